@@ -20,8 +20,8 @@ META = {
                    "every operator tree up to the stated depth built with the REAL overloads evaluates to the same Python arithmetic on "
                    "the operand values; a named override replaces exactly that argument",
     "bounds": {"quick": "all real arguments in the stated domains; operator trees of depth <= 2 over {Constant, Symbol, TPoly, 0, 1, 2, 3.0} "
-                        "with + - * / ** and negation; piecewise with 2-3 pieces and symbolic bounds",
-               "thorough": "+ operator trees of depth 3 (seeded subset of the 3-level shapes)"},
+                        "with + - * / ** and negation; polynomials with up to 18 coefficients; piecewise with 2, 3 and 5 pieces and symbolic bounds",
+               "thorough": "+ operator trees of depth 3 (seeded subset of the 3-level shapes); piecewise with 6 and 9 pieces"},
     "assumptions": [
         "backend independence is shown as: the value is one and the same term built from backend.exp/... for ANY backend object that "
         "provides those functions (uninterpreted), units independence as invariance under all positive unit scales (idealised stub)",
